@@ -1,13 +1,21 @@
 """C20 — server lifecycle; this module currently covers the transfer half (resources of every transfer ending)."""
 import tftp_common as T
 from props import tftp_base as B
-from props.tftp_base import env_of, worker_setup, run_impl, model_requests, shrink, neighbours, signature  # noqa
+from props.tftp_base import env_of, worker_setup  # noqa
+from core import Judgement
 
 ID = "C20"
 MODULE = "props.c20"
-THEOREM_MODULES = ["Vinegar.Theorems.C20"]
+THEOREM_MODULES = ["Vinegar.Theorems.C20", "Vinegar.Theorems.C20Lifecycle"]
 THEOREMS = [
     "Vinegar.C20.transfer_closes_resources",
+    "Vinegar.C20Lifecycle.concurrent_end_consistent",
+    "Vinegar.C20Lifecycle.no_deadlock",
+    "Vinegar.C20Lifecycle.start_idem",
+    "Vinegar.C20Lifecycle.stop_idem",
+    "Vinegar.C20Lifecycle.seq_consistent",
+    "Vinegar.C20Lifecycle.quiescent_stop_releases",
+    "Vinegar.C20Lifecycle.seq_stop_refines",
 ]
 TRUSTED_BASE = T.TRUSTED_BASE
 ASSUMPTIONS = T.ASSUMPTIONS
@@ -23,10 +31,113 @@ def _extra(v):
     return None
 
 
-judge = B.make_judge(required=["c20"], project=T.proj_resources, extra=_extra)
+_transfer_judge = B.make_judge(required=["c20"], project=T.proj_resources, extra=_extra)
+
+
+def run_impl(case, env):
+    import tftp_adapter
+    if case.get("kind", "").startswith("lifecycle"):
+        return tftp_adapter.run_lifecycle(case)
+    return tftp_adapter.run_session(case)
+
+
+def model_requests(case, obs):
+    k = case.get("kind", "")
+    if k == "lifecycle_seq":
+        return [{"op": "lifecycle.seq", "ops": case["ops"]}]
+    if k == "lifecycle_conc":
+        f = obs.get("final") or {"running": False, "shutdown_requested": False, "thread_alive": False,
+                                 "socket_open": False}
+        return [dict({"op": "lifecycle.end"}, **f), {"op": "lifecycle.seq", "ops": ["stop", "start", "request", "stop"]}]
+    return B.model_requests(case, obs)
+
+
+def judge(case, obs, resps):
+    k = case.get("kind", "")
+    if not k.startswith("lifecycle"):
+        return _transfer_judge(case, obs, resps)
+    if "harness_exception" in obs or any("err" in r for r in resps):
+        return Judgement(case, True, False, {"infrastructure": obs.get("harness_exception") or resps}, kind="infra",
+                         nontrivial=False)
+    if obs.get("errors") or obs.get("exc"):
+        return Judgement(case, False, False, {"raised": obs.get("errors"), "logged": obs.get("exc")}, kind=k,
+                         failed_clause="lifecycle_call_raised")
+    if k == "lifecycle_seq":
+        steps = resps[0]["ok"]["steps"]
+        exp = []
+        for op, st in zip(case["ops"], steps):
+            if op == "request":
+                exp.append(["request", st["ok"]])
+            else:
+                exp.append([op, st["state"]["thread_alive"], st["state"]["socket_open"]])
+        agree = exp == obs["steps"]
+        # the statement itself: after stop() thread ended and port released; requests served iff started
+        spec_ok = agree or all(a == b for a, b in zip(exp, obs["steps"]))
+        detail = None if agree else {"model": exp, "impl": obs["steps"]}
+        clause = None
+        if not agree:
+            spec_ok, clause = False, "lifecycle_sequence"
+        return Judgement(case, spec_ok, agree, detail, kind=k, nontrivial=len(case["ops"]) > 2, failed_clause=clause)
+    # concurrent
+    if obs.get("hung"):
+        return Judgement(case, False, False, {"hung": True}, kind=k, failed_clause="deadlock")
+    cons = resps[0]["ok"]["consistent"]
+    steps = resps[1]["ok"]["steps"]
+    exp_after = [["stop", False, False], ["start", True, True], ["request", True], ["stop", False, False]]
+    ok_after = obs.get("after") == exp_after
+    spec_ok = bool(cons) and ok_after
+    clause = None if spec_ok else ("inconsistent_end_state" if not cons else "unusable_after_concurrent_calls")
+    return Judgement(case, spec_ok, spec_ok, None if spec_ok else {"final": obs.get("final"), "after": obs.get("after")},
+                     kind=k, nontrivial=True, failed_clause=clause)
+
+
+def shrink(case):
+    k = case.get("kind", "")
+    if k == "lifecycle_seq":
+        ops = case["ops"]
+        for i in range(len(ops)):
+            d = dict(case); d["ops"] = ops[:i] + ops[i + 1:]; yield d
+        return
+    if k == "lifecycle_conc":
+        th = case["threads"]
+        for i in range(len(th)):
+            if len(th) > 2:
+                d = dict(case); d["threads"] = th[:i] + th[i + 1:]; yield d
+            if len(th[i]) > 1:
+                d = dict(case); d["threads"] = th[:i] + [th[i][:-1]] + th[i + 1:]; yield d
+        return
+    yield from B.shrink(case)
+
+
+def neighbours(case, rng):
+    if case.get("kind", "").startswith("lifecycle"):
+        yield from shrink(case)
+        return
+    yield from B.neighbours(case, rng)
+
+
+def signature(case, j):
+    if case.get("kind", "").startswith("lifecycle"):
+        return {"clause": j.failed_clause, "kind": case["kind"], "proto": "tftp"}
+    return B.signature(case, j)
+
+
+def gen_lifecycle(rng, tier, mult=1):
+    import itertools
+    maxlen = 4 if tier == "quick" else 6
+    for n in range(1, maxlen + 1):
+        for ops in itertools.product(["start", "stop", "request"], repeat=n):
+            if tier == "thorough" or n <= 3 or rng.random() < 0.4:
+                yield {"kind": "lifecycle_seq", "ops": list(ops), "_meta": {"style": "lifecycle"}}
+    for i in range((25 if tier == "quick" else 400) * mult):
+        k = rng.choice([2, 2, 3, 4])
+        yield {"kind": "lifecycle_conc", "seed": rng.randrange(1 << 30),
+               "threads": [[rng.choice(["start", "stop"]) for _ in range(rng.randrange(1, 4))] for _ in range(k)],
+               "_meta": {"style": "lifecycle"}}
 
 
 def gen(rng, tier, mult=1):
+    yield from gen_lifecycle(rng, tier, mult)
     n = (300 if tier == "quick" else 4000) * mult
     for i in range(n):
         yield T.gen_transfer_case(rng, script_style=["abort", "silent", "clean", "faulty", "edge", "random"][i % 6],
